@@ -8,8 +8,8 @@ package keyid
 //vsym:model encoding/json.Unmarshal t05Unmarshal
 //vsym:include C05/s05.go
 //vsym:replay same-harness
-//vsym:expect-cover C05.text.ok C05.text.refused C05.text.missing-key C05.text.roundtrip C05.text.second-ok
-//vsym:bound H05_text_*: the text handed to Unmarshal is a genuine JSON object (not a token): keys in struct order, every string value L symbolic bytes (L in {0,1,3,5,7}; thorough also 10,11,13) from the printable ASCII set without the characters JSON or encoding/json escape, booleans symbolic (rendered `true ` / `false`), numbers one symbolic decimal digit, version also null, at most one key absent (thorough: two), or a text that is not JSON
+//vsym:expect-cover C05.text.ok C05.text.refused C05.text.missing-key C05.text.roundtrip C05.text.second-ok C05.text.retyped
+//vsym:bound H05_text_*: the text handed to Unmarshal is a genuine JSON object (not a token): keys in struct order, every string value L symbolic bytes (L in {0,1,3,5,7}; thorough also 10,11,13) from the printable ASCII set without the characters JSON or encoding/json escape, booleans symbolic (rendered `true ` / `false`), numbers one symbolic decimal digit, version also null, at most one key absent (thorough: two) or null or written in upper case only, the version stated twice in different case, or a text that is not JSON
 //vsym:bound H05_text_twice: first text: string length 1 or 7, one principal, every key / first or last key absent / last key null / not JSON; decode, overwrite every flag of the result with arbitrary values, decode again either the same text or a second text (same string length, one principal, every key or all but one of the first two)
 //vsym:bound H05_text_roundtrip: Marshal of a KeyID with one-digit numbers produces the exact encoding/json text; decode, overwrite the result, decode the same text again
 //vsym:assume encoding/json is modelled by its contract on exactly the texts built here (the model finds the document by its text); code that inspects the text itself sees the genuine bytes
@@ -27,6 +27,10 @@ type t05Doc struct {
 	present map[string]bool   // JSON name -> the key occurs
 	null    map[string]bool   // JSON name -> the value is null
 	raw     map[string]string // JSON name -> value text
+	exactVer *uint16          // the value under the exact key "ver" when "VER" states another one
+	extra   map[string]interface{} // members no struct field matches (what a map decode sees in addition)
+	retyped map[string]bool   // JSON name -> the value has another JSON type than the field (a string for a boolean, a number or a list; a number for a string)
+	variant map[string]bool   // JSON name -> the text (also) carries the key in upper case (encoding/json matches struct fields case-insensitively, a map does not)
 }
 
 var t05Docs []*t05Doc
@@ -68,7 +72,17 @@ func t05Bool(b bool, exact bool) []byte {
 	return out
 }
 
-func t05Quote(s string) []byte { return []byte(`"` + s + `"`) }
+// t05QuoteHook, t05ForeignHook: set by H05_text_escapes (values that need
+// escaping; texts the code under test rewrote); nil elsewhere.
+var t05QuoteHook func(string) []byte
+var t05ForeignHook func([]byte) *t05Doc
+
+func t05Quote(s string) []byte {
+	if t05QuoteHook != nil {
+		return t05QuoteHook(s)
+	}
+	return []byte(`"` + s + `"`)
+}
 
 // t05Fresh: an arbitrary KeyID within the bound.
 func t05Fresh(tag string, nprins int) KeyID {
@@ -98,8 +112,14 @@ func t05Fresh(tag string, nprins int) KeyID {
 // t05Render builds the text of k.  exact: byte-for-byte what encoding/json
 // emits (omitempty honoured).  absent: JSON names left out; nullName: a key
 // whose value is null.
+// caseOnly: JSON names written in upper case instead of their exact spelling
+var t05CaseOnly map[string]bool
+
+// t05Retyped: the JSON name whose value is written with another JSON type
+var t05Retyped string
+
 func t05Render(k *KeyID, exact bool, absent map[string]bool, nullName string) *t05Doc {
-	d := &t05Doc{present: map[string]bool{}, null: map[string]bool{}, raw: map[string]string{}}
+	d := &t05Doc{present: map[string]bool{}, null: map[string]bool{}, raw: map[string]string{}, variant: map[string]bool{}, retyped: map[string]bool{}}
 	d.kid = *k
 	d.kid.Principals = append([]string(nil), k.Principals...)
 	if k.Principals != nil && d.kid.Principals == nil {
@@ -158,17 +178,35 @@ func t05Render(k *KeyID, exact bool, absent map[string]bool, nullName string) *t
 			val = []byte("null")
 			d.null[name] = true
 		}
+		if name == t05Retyped && name != nullName {
+			d.retyped[name] = true
+			d.null[name] = false
+			switch goName {
+			case "TransID", "ReqUser", "ReqIP", "ReqHost":
+				val = []byte("7")
+			default:
+				val = []byte(`"1"`)
+			}
+		}
 		if absent[name] || (exact && omit && zero) {
 			d.present[name] = false
 			continue
 		}
-		d.present[name] = true
-		d.raw[name] = string(val)
+		written := name
+		if t05CaseOnly[name] {
+			// the key occurs only in another case: no exact key in the text
+			written = strings.ToUpper(name)
+			d.variant[name] = true
+			d.present[name] = false
+		} else {
+			d.present[name] = true
+		}
+		d.raw[written] = string(val)
 		if !first {
 			out = append(out, ',')
 		}
 		first = false
-		out = append(out, t05Quote(name)...)
+		out = append(out, t05Quote(written)...)
 		out = append(out, ':')
 		out = append(out, val...)
 	}
@@ -200,7 +238,57 @@ func t05Find(data []byte) *t05Doc {
 			return t05Docs[i]
 		}
 	}
+	if t05ForeignHook != nil {
+		return t05ForeignHook(data)
+	}
 	panic("t05Unmarshal: text of unknown origin")
+}
+
+// t05Any: the value encoding/json stores in a map[string]interface{} for the
+// key: float64 for numbers, string, bool, []interface{} for arrays, nil for null
+func t05Any(d *t05Doc, name string) interface{} {
+	if d.null[name] {
+		return nil
+	}
+	if d.retyped[name] {
+		switch name {
+		case "transID", "reqUser", "reqIP", "reqHost":
+			return float64(7)
+		}
+		return "1"
+	}
+	k := &d.kid
+	switch name {
+	case "prins":
+		out := []interface{}{}
+		for _, p := range k.Principals {
+			out = append(out, p)
+		}
+		return out
+	case "transID":
+		return k.TransID
+	case "reqUser":
+		return k.ReqUser
+	case "reqIP":
+		return k.ReqIP
+	case "reqHost":
+		return k.ReqHost
+	case "isFirefighter":
+		return k.IsFirefighter
+	case "isHWKey":
+		return k.IsHWKey
+	case "isHeadless":
+		return k.IsHeadless
+	case "isNonce":
+		return k.IsNonce
+	case "usage":
+		return float64(k.Usage)
+	case "touchPolicy":
+		return float64(k.TouchPolicy)
+	case "ver":
+		return float64(k.Version)
+	}
+	return true
 }
 
 func t05Unmarshal(data []byte, v any) error {
@@ -216,13 +304,20 @@ func t05Unmarshal(data []byte, v any) error {
 	if d.invalid {
 		return errors.New("model: invalid JSON")
 	}
-	set := func(name string) bool { return d.present[name] && !d.null[name] }
+	set := func(name string) bool { return (d.present[name] || d.variant[name]) && !d.null[name] }
+	typeErr := false
 	switch dst := v.(type) {
 	case *KeyID:
 		for _, f := range vJSONFields(dst) {
 			p := strings.Split(f, "|")
 			if !set(p[1]) {
 				continue // absent or null: the destination keeps what it had
+			}
+			if d.retyped[p[1]] {
+				// a value of the wrong type: the field keeps what it had, the
+				// other fields are decoded, and the call reports a type error
+				typeErr = true
+				continue
 			}
 			switch p[0] {
 			case "Principals":
@@ -253,6 +348,9 @@ func t05Unmarshal(data []byte, v any) error {
 				panic("t05: KeyID has a field the JSON model does not know: " + p[0])
 			}
 		}
+		if typeErr {
+			return errors.New("model: json: cannot unmarshal a value of another type into that field")
+		}
 		return nil
 	case *map[string]interface{}:
 		if *dst == nil {
@@ -262,21 +360,26 @@ func t05Unmarshal(data []byte, v any) error {
 			if !pr {
 				continue
 			}
-			var val interface{} = true
-			if d.null[name] {
-				val = nil
+			(*dst)[name] = t05Any(d, name)
+			if name == "ver" && d.exactVer != nil {
+				(*dst)[name] = float64(*d.exactVer)
 			}
-			(*dst)[name] = val
+		}
+		for name, v := range d.variant {
+			if v {
+				(*dst)[strings.ToUpper(name)] = t05Any(d, name)
+			}
+		}
+		for name, v := range d.extra {
+			(*dst)[name] = v
 		}
 		return nil
 	case *map[string]json.RawMessage:
 		if *dst == nil {
 			*dst = map[string]json.RawMessage{}
 		}
-		for name, pr := range d.present {
-			if pr {
-				(*dst)[name] = json.RawMessage(d.raw[name])
-			}
+		for name := range d.raw {
+			(*dst)[name] = json.RawMessage(d.raw[name])
 		}
 		return nil
 	}
@@ -340,14 +443,16 @@ func t05ArbitraryIn(tag string, reduced bool) *t05Doc {
 	}
 	absent := map[string]bool{}
 	nullName := ""
+	nested := ""
 	// shape: 0 = not JSON; 1 = every key; 2.. = one key absent; then one key null
 	n := len(names)
 	shape := 1
 	if reduced {
 		shape = 1 + vChoose(3, tag+"shape")
 	} else {
-		shape = vChoose(2+2*n, tag+"shape")
+		shape = vChoose(2+5*n+1, tag+"shape")
 	}
+	t05CaseOnly = nil
 	var d *t05Doc
 	switch {
 	case shape == 0:
@@ -362,10 +467,40 @@ func t05ArbitraryIn(tag string, reduced bool) *t05Doc {
 				absent[names[j]] = true
 			}
 		}
-	default:
+	case shape < 2+2*n:
 		nullName = names[shape-2-n]
+	case shape < 2+3*n:
+		// one key occurs only in upper case
+		t05CaseOnly = map[string]bool{names[shape-2-2*n]: true}
+	case shape > 2+3*n && shape <= 2+4*n:
+		// one value has another JSON type than its field
+		t05Retyped = names[shape-3-3*n]
+	case shape > 2+4*n:
+		// one key is absent at the top level; its name occurs only as a
+		// member of a nested object under a name no field has
+		nested = names[shape-3-4*n]
+		absent[nested] = true
 	}
 	d = t05Render(&k, false, absent, nullName)
+	t05CaseOnly = nil
+	t05Retyped = ""
+	if nested != "" {
+		inner := `{"` + nested + `":1}`
+		d.text = `{"ext":` + inner + "," + d.text[1:]
+		d.raw["ext"] = inner
+		d.extra = map[string]interface{}{"ext": map[string]interface{}{nested: float64(1)}}
+	}
+	if shape == 2+3*n {
+		// every key, and after them "VER" with another value: the struct
+		// field takes the last one, a map keeps both keys
+		v2 := t05Digit(tag + "ver-again")
+		d.text = d.text[:len(d.text)-1] + `,"VER":` + string([]byte{'0' + v2}) + "}"
+		d.raw["VER"] = string([]byte{'0' + v2})
+		d.variant["ver"] = true
+		first := d.kid.Version
+		d.exactVer = &first
+		d.kid.Version = uint16(v2)
+	}
 	if nullName != "" {
 		// the text states no value for that key
 		switch nullName {
@@ -390,6 +525,14 @@ func t05Oracle(d *t05Doc, k *KeyID, err error, crashed bool, tag string) {
 	}
 	if d.invalid {
 		vAssert(err != nil, "C05.text-not-json-is-refused")
+	}
+	for _, r := range d.retyped {
+		if r {
+			// encoding/json reports the mismatch; what comes back would not
+			// be what the text states
+			vAssert(err != nil, "C05.text-retyped-field-is-refused")
+			vReach("C05.text.retyped")
+		}
 	}
 	if err != nil {
 		vAssert(k == nil, "C05.text-error-returns-nil")
@@ -479,6 +622,10 @@ func H05_text_roundtrip() {
 	ls := t05Lens()
 	t05Len = ls[vChoose(len(ls), "string-len")]
 	k := t05Fresh("", vChoose(3, "nprins")) // no principals: a nil list, encoded as null
+	t05Roundtrip(k)
+}
+
+func t05Roundtrip(k KeyID) {
 	orig := k
 	if k.Principals != nil {
 		orig.Principals = append([]string{}, k.Principals...)
